@@ -61,29 +61,34 @@ Theorem C10_failed_start_refuted : ~ C10_failed_start_statement.
 Proof. exact failed_start_refuted. Qed.
 Print Assumptions C10_failed_start_refuted.
 
-(* End stamps "however the run ends".  Full statement: any operation that takes the environment
-   out of RUNNING leaves both end stamps set. *)
-Definition C10_end_stamps_statement : Prop :=
-  forall hooks i o s s' t r,
-    run_op hooks i o s = (s', t, r) -> r <> RCrash -> e_st s = RUNNING -> e_st s' <> RUNNING ->
-    rv_soeor (e_rv s) <> SAbsent -> rv_eoeor (e_rv s) <> SAbsent ->
-    is_set (rv_soeor (e_rv s')) /\ is_set (rv_eoeor (e_rv s')).
+(* End stamps "however the run ends": any operation that takes the environment out of RUNNING -
+   STOP_ACTIVITY, GO_ERROR, the forced ERROR after a GO_ERROR that was cancelled (watcher sequence
+   and ControlEnvironment fallback; former finding C10-a, repaired: ForceError closes the open
+   run), teardown - leaves both end stamps set; each stamp is judged on its own, whatever mixture
+   earlier failed operations left. *)
+Theorem C10_end_stamps : forall hooks i o s s' t r,
+  run_op hooks i o s = (s', t, r) -> r <> RCrash -> e_st s = RUNNING -> e_st s' <> RUNNING ->
+  rv_soeor (e_rv s) <> SAbsent -> rv_eoeor (e_rv s) <> SAbsent ->
+  is_set (rv_soeor (e_rv s')) /\ is_set (rv_eoeor (e_rv s')).
+Proof. exact end_stamps_however. Qed.
+Print Assumptions C10_end_stamps.
 
-(* Refuted (finding C10-a): a critical negative-weight before_GO_ERROR hook fails, GO_ERROR is
-   cancelled before its built-in work, the error watcher forces the state to ERROR. *)
-Theorem C10_end_stamps_refuted : ~ C10_end_stamps_statement.
-Proof. exact end_stamps_refuted. Qed.
-Print Assumptions C10_end_stamps_refuted.
+(* the former witness: START_ACTIVITY, then the watcher sequence with a failing critical
+   before_GO_ERROR-1 hook: the run is closed when the state is forced *)
+Theorem C10_forced_error_closes_run :
+  let s := fst (run_ops wit_forced_hooks 0 wit_forced_ops (est0 CONFIGURED)) in
+  e_st s = ERROR /\ rv_soeor (e_rv s) = SSet 3 /\ rv_eoeor (e_rv s) = SSet 4.
+Proof. exact wit_forced_closed. Qed.
+Print Assumptions C10_forced_error_closes_run.
 
-(* It holds for every run ended by a STOP_ACTIVITY or GO_ERROR transition that changes the
-   state ... *)
-Theorem C10_end_stamps_partial : forall hooks orc e b s s' t r d,
+(* the same for a single transition, without looking at the state it started from *)
+Theorem C10_end_stamps_transition : forall hooks orc e b s s' t r d,
   ending e -> transition hooks orc e b s = (s', t, r) -> dst_of e (e_st s) = Some d ->
   r <> RCrash -> e_st s' <> e_st s ->
   rv_soeor (e_rv s) <> SAbsent -> rv_eoeor (e_rv s) <> SAbsent ->
   is_set (rv_soeor (e_rv s')) /\ is_set (rv_eoeor (e_rv s')).
 Proof. exact end_stamps_set. Qed.
-Print Assumptions C10_end_stamps_partial.
+Print Assumptions C10_end_stamps_transition.
 
 (* ... and for a run ended by tearing the environment down while RUNNING. *)
 Theorem C10_end_stamps_teardown : forall hooks i o s s' t r,
